@@ -18,7 +18,7 @@ RULE = ("kernel cases = (loop nest of depth 1-3: per level a source {fiber, a&b,
         "pre-populated outputs, declared trace set, thresholds subset of {2,3,5,1000}, default 0 or 7); small scope: "
         "every depth-1 form x all pairs of leaf fibers over 2 (quick) / 3 (thorough) coordinates x {absent, explicit "
         "default, value} x 4 trace sets, depth-2/3 templates (SpMV, reductions, Gustavson, inner/outer product, "
-        "copy, dense iterShapeRef() outer loops) on seeded random trees, populate destination ranks in format C or U, loop ranks with flattened 2-tuple coordinates (associateShape), lazy operands built before beginCollect in every other case, a lazy fiber built inside and iterated after the collection; api cases = seeded random Metrics call sequences (nest-shaped with "
+        "copy, dense iterShapeRef() outer loops) on seeded random trees, populate destination ranks in format C or U, input ranks of format U (declared / estimated extents, tensor-owned and unowned fibers), multi-digit coordinates, float values and defaults, stale trace files of the previous session, loop ranks with flattened 2-tuple coordinates (associateShape), lazy operands built before beginCollect in every other case, a lazy fiber built inside and iterated after the collection; api cases = seeded random Metrics call sequences (nest-shaped with "
         "perturbations: late/duplicate declarations, double matches, uses on unregistered ranks, interleaved "
         "consumeTrace). non-trivial = a traced file with >= 2 data rows (kernel) / a flush or a consume happened (api)")
 
@@ -189,8 +189,67 @@ TEMPLATES = {
     "flat-outer": lambda: [_level("M", _src("fiber", 0), tuple_k=2), _level("K", _src("fiber", 0))],
     "flat-outer-and": lambda: [_level("M", _src("and", 0, 1), tuple_k=3), _level("K", _src("fiber", 0))],
     "flat-outer3": lambda: [_level("M", _src("fiber", 0), tuple_k=2), _level("K", _src("and", 0, 1), tuple_k=2), _level("N", _src("fiber", 1), True)],
+    "u-outer": lambda: [_level("M", _src("fiber", 0)), _level("K", _src("fiber", 0))],
+    "u-outer-and": lambda: [_level("M", _src("fiber", 0)), _level("K", _src("and", 0, 1))],
     "lf3": lambda: [_level("M", _src("fiber", 0)), _level("K", _src("lf", 0, 1)), _level("N", _src("fiber", 1), True)],
 }
+
+
+def _max_coord_at(tree, depth, at):
+    """largest coordinate stored at rank `at` (0 = top) of a tree of `depth` ranks, None if there is none"""
+    if at == 0:
+        return max((c for c, _ in tree), default=None)
+    best = None
+    if depth > 1:
+        for _, sub in tree:
+            m = _max_coord_at(sub, depth - 1, at - 1)
+            if m is not None and (best is None or m > best):
+                best = m
+    return best
+
+
+def _scale_tree(tree, depth, s):
+    if depth == 1:
+        return [[c * s, v] for c, v in tree]
+    return [[c * s, _scale_tree(sub, depth - 1, s)] for c, sub in tree]
+
+
+def add_u_ranks(rng, levels, ops, n, p=0.12):
+    """mark input operand ranks as format "U" (walked densely over the rank's extent: declared shape, or
+    estimated = largest stored coordinate of the rank + 1); records [operand, extent] in lv["uOps"]"""
+    for i, lv in enumerate(levels):
+        s = lv["src"]
+        if s["kind"] == "dense" or "tuple" in lv or (s["kind"] == "proj" and not lv["pop"]):
+            continue        # (a plain loop over a projection of a format-"U" rank is not modelled)
+        for x in sorted({s["x"]} | ({s["y"]} if "y" in s else set())):
+            o = ops[x]
+            if o["d"] == 0 or rng.random() >= p:
+                continue
+            if "shape" not in o and rng.random() < 0.5:
+                o["shape"] = [n + rng.choice([0, 2])] * o["d"]      # declared, possibly larger than needed
+            lv.setdefault("u", []).append(x)
+
+
+def fill_extents(case):
+    """lv["uOps"] = [[operand, extent]] for the format-"U" ranks listed in lv["u"]: the declared shape, or the
+    estimate (largest coordinate stored in the rank + 1); a rank that stores nothing has no estimate and
+    stays compressed.  A function of the case, so that shrunk cases stay consistent."""
+    levels, ops = case["levels"], case["ops"]
+    for i, lv in enumerate(levels):
+        lv.pop("uOps", None)
+        for x in lv.get("u", []):
+            o = ops[x]
+            if o["d"] == 0:
+                continue
+            at = op_levels(levels, x).index(i)
+            if "shape" in o:
+                ext = o["shape"][at]
+            else:
+                m = _max_coord_at(o["tree"], o["d"], at)
+                if m is None:
+                    continue
+                ext = m + 1
+            lv.setdefault("uOps", []).append([x, ext])
 
 
 def _rand_case(rng, levels, n, dflt, tmode=None, zmode=None, prematch=True, thresholds=None):
@@ -230,6 +289,24 @@ def _rand_case(rng, levels, n, dflt, tmode=None, zmode=None, prematch=True, thre
         if (not lv["pop"] and lv["src"]["kind"] in ("fiber", "and", "lf") and "tuple" not in lv
                 and rng.random() < 0.15):
             lv["tuple"] = rng.choice([2, 3])
+    add_u_ranks(rng, levels, ops, n)
+    for o in ops:
+        if o["d"] == 1 and rng.random() < 0.3:
+            o["free"] = True              # an unowned fiber carrying its own rank attributes (id, format, shape)
+    plain = all(lv["src"]["kind"] in ("fiber", "and", "lf") and "tuple" not in lv and "u" not in lv
+                for lv in levels) and not any("shape" in o for o in ops)
+    if plain and rng.random() < 0.25:
+        # multi-digit coordinates (9 / 10 / 100 boundaries)
+        sc = rng.choice([9, 37])
+        for o in ops:
+            if o["d"] > 0:
+                o["tree"] = _scale_tree(o["tree"], o["d"], sc)
+        if z is not None:
+            z["tree"] = _scale_tree(z["tree"], z["d"], sc)
+            z["shape"] = [v * sc for v in z["shape"]]
+    vscale = None
+    if z is None and rng.random() < 0.3:
+        vscale = 0.5                      # float values and a float default (v * 0.5), equality with the default kept
     tmode = tmode or rng.choice(TRACE_SETS + ["all", "random", "random"])
     if tmode == "random":
         cand = candidate_keys(levels)
@@ -239,8 +316,11 @@ def _rand_case(rng, levels, n, dflt, tmode=None, zmode=None, prematch=True, thre
     else:
         traced = pick_traced(levels, tmode)
     if thresholds is None:
-        thresholds = sorted(set([rng.choice([2, 3, 5]), rng.choice([2, 3, 5, 1000]), 1000]))
-    return finish_case(levels, ops, z, traced, thresholds, dflt, prematch)
+        thresholds = sorted(set([rng.choice([2, 3, 4, 5, 7]), rng.choice([2, 3, 5, 1000]), 1000]))
+    case = finish_case(levels, ops, z, traced, thresholds, dflt, prematch)
+    if vscale:
+        case["vscale"] = vscale
+    return case
 
 
 def gen_kernels(seed, tier):
@@ -271,6 +351,27 @@ def gen_kernels(seed, tier):
                         levels[0]["zU"] = True
                         yield finish_case(levels, _mk_ops(levels, [a, b]), {"d": 1, "tree": zt, "shape": [n + 4]},
                                           pick_traced(levels, "all"), [2, 1000], 0, prematch=True)
+    # ---- format "U" input ranks (estimated and declared extents) on every depth-1 form that admits them
+    for name, mk in DEPTH1_FORMS:
+        lv0 = mk()[0]
+        if lv0["src"]["kind"] in ("dense",) or (lv0["src"]["kind"] == "proj" and not lv0["pop"]):
+            continue
+        two = lv0["src"]["kind"] in ("and", "lf")
+        for a in fibs:
+            for b in (fibs if two else [None]):
+                for us in ([[0], [1], [0, 1]] if two else [[0]]):
+                    for decl in (False, True):
+                        k += 1
+                        if tier == "quick" and two and k % 2:
+                            continue
+                        levels = mk()
+                        levels[0]["u"] = us
+                        ops = _mk_ops(levels, [a, b])
+                        if decl:
+                            for x in us:
+                                ops[x]["shape"] = [n + 1]
+                        z = {"d": 1, "tree": [[1, 5]] if k % 3 == 0 else [], "shape": [n + 5]} if lv0["pop"] else None
+                        yield finish_case(levels, ops, z, pick_traced(levels, "all"), [2, 1000], 0, prematch=True)
     # ---- the late-match composite projection (expected to assert when its trace is declared)
     for a in fibs[:6]:
         levels = DEPTH1_FORMS[8][1]()
@@ -285,12 +386,17 @@ def gen_kernels(seed, tier):
     for i in range(nrand):
         dflt = rng.choice([0, 0, 0, 7])
         nn = rng.choice([2, 3, 3, 4, 5]) if tier == "quick" else rng.choice([2, 3, 4, 5, 6, 8])
+        name = None
         if i % 3 != 2:
-            levels = TEMPLATES[names[(i // 3 * 2 + i % 3) % len(names)]]()
+            name = names[(i // 3 * 2 + i % 3) % len(names)]
+            levels = TEMPLATES[name]()
         else:
             levels = random_levels(rng)
         th = None if tier == "quick" else sorted(set(rng.sample(THRESHOLDS, 3) + [1000]))
-        yield _rand_case(rng, levels, nn, dflt, thresholds=th)
+        case = _rand_case(rng, levels, nn, dflt, thresholds=th)
+        if name in ("u-outer", "u-outer-and") and "tuple" not in case["levels"][0]:
+            case["levels"][0]["u"] = [0]          # the outer rank in format "U"
+        yield case
 
 
 def random_levels(rng):
@@ -442,20 +548,25 @@ def _force_end(ft):
     M.num_cached_uses = 1000
 
 
-def _build_fiber_t(ft, tree, depth, dflt, ks):
-    """like H.build_fiber, but ranks with ks[i] = k hold the 2-tuple (c // k, c % k) instead of c"""
+def _build_fiber_t(ft, tree, depth, dflt, ks, vs=None):
+    """like H.build_fiber, but ranks with ks[i] = k hold the 2-tuple (c // k, c % k) instead of c, and leaf
+    values / the default are multiplied by vs (floats)"""
     k = ks[0]
     coords = [((c // k, c % k) if k else c) for c, _ in tree]
+    d = dflt * vs if vs else dflt
     if depth == 1:
-        return ft.Fiber(coords, [v for _, v in tree], default=dflt)
-    return ft.Fiber(coords, [_build_fiber_t(ft, sub, depth - 1, dflt, ks[1:]) for _, sub in tree], default=dflt)
+        return ft.Fiber(coords, [(v * vs if vs else v) for _, v in tree], default=d)
+    return ft.Fiber(coords, [_build_fiber_t(ft, sub, depth - 1, dflt, ks[1:], vs) for _, sub in tree], default=d)
 
 
-def _build_tensor(ft, ids, tree, dflt, shape=None, ks=None):
-    if ks and any(ks):
-        fiber = _build_fiber_t(ft, tree, len(ids), dflt, ks)
+def _build_tensor(ft, ids, tree, dflt, shape=None, ks=None, vs=None):
+    if (ks and any(ks)) or vs:
+        ks = ks or [None] * len(ids)
+        fiber = _build_fiber_t(ft, tree, len(ids), dflt, ks, vs)
         if shape is not None:
             shape = [((s + k - 1) // k, k) if k else s for s, k in zip(shape, ks)]
+        if vs:
+            dflt = dflt * vs
     else:
         fiber = H.build_fiber(tree, len(ids), dflt)
     kw = {"rank_ids": ids, "fiber": fiber, "default": dflt}
@@ -578,7 +689,7 @@ def _exec_nest(ft, levels, ops, z, i, spy=None, pre=None):
         spy.end(lv["rank"], watch[0], watch[1], first, not lv.get("zU"))
 
 
-def _run_kernel_once(ft, case, ncu, consumable):
+def _run_kernel_once(ft, case, ncu, consumable, clean=True):
     M = ft.Metrics
     levels, dflt = case["levels"], case["dflt"]
     ops = []
@@ -587,7 +698,23 @@ def _run_kernel_once(ft, case, ncu, consumable):
             ops.append(None)
         else:
             ks = [levels[i].get("tuple") for i in op_levels(levels, x)]
-            ops.append(_build_tensor(ft, op_rank_ids(levels, x), o["tree"], dflt, shape=o.get("shape"), ks=ks).getRoot())
+            ids = op_rank_ids(levels, x)
+            ufmt = [any(u[0] == x for u in levels[i].get("uOps", [])) for i in op_levels(levels, x)]
+            vs = case.get("vscale")
+            if o.get("free") and o["d"] == 1 and not ks[0]:
+                # an unowned fiber: rank id, format and shape live in its own rank attributes
+                f = ft.Fiber([c for c, _ in o["tree"]], [(v * vs if vs else v) for _, v in o["tree"]],
+                             default=(dflt * vs if vs else dflt), shape=(o["shape"][0] if "shape" in o else None))
+                f.getRankAttrs().setId(ids[0])
+                if ufmt[0]:
+                    f.getRankAttrs().setFormat("U")
+                ops.append(f)
+            else:
+                t = _build_tensor(ft, ids, o["tree"], dflt, shape=o.get("shape"), ks=ks, vs=vs)
+                for rid, u in zip(ids, ufmt):
+                    if u:
+                        t.setFormat(rid, "U")
+                ops.append(t.getRoot())
     z = None
     if case["z"] is not None:
         zr = [levels[i]["rank"] for i in z_levels(levels)]
@@ -598,8 +725,9 @@ def _run_kernel_once(ft, case, ncu, consumable):
         z = zt.getRoot()
     d = scratch()
     prefix = os.path.join(d, "t")
-    for f in glob.glob(prefix + "-*.csv"):
-        os.remove(f)
+    if clean:
+        for f in glob.glob(prefix + "-*.csv"):
+            os.remove(f)
     err, mem = None, {}
     dest = (0, [])
     late, late_ok = None, True
@@ -651,17 +779,18 @@ def _run_kernel_once(ft, case, ncu, consumable):
                 raise
             late_ok = False
         _force_end(ft)
-    for f in glob.glob(prefix + "-*.csv"):
-        os.remove(f)
-    return files, mem, err, zsnap, (dest[0], dest[1], late_ok)
+    declared = {f"{prefix}-{r}-{t}.csv" for r, t in case["traced"]}
+    stray = sorted(os.path.basename(f) for f in glob.glob(prefix + "-*.csv") if f not in declared)
+    # the files are left in place: the next session with the same prefix has to replace them completely
+    return files, mem, err, zsnap, (dest[0], dest[1], late_ok and not stray)
 
 
 def _run_kernel(ft, case):
     impl = {"files": {}, "mem": None, "err": None}
     outs = []
     dest_checked, dest_bad, late_ok = 0, [], True
-    for n in case["thresholds"]:
-        files, _, err, zs, dest = _run_kernel_once(ft, case, n, False)
+    for k, n in enumerate(case["thresholds"]):
+        files, _, err, zs, dest = _run_kernel_once(ft, case, n, False, clean=(k == 0))
         impl["files"][str(n)] = files
         outs.append(zs)
         dest_checked += dest[0]
@@ -669,7 +798,9 @@ def _run_kernel(ft, case):
         late_ok = late_ok and dest[2]
         if err and not impl["err"]:
             impl["err"] = err
-    _, mem, err, zs, _ = _run_kernel_once(ft, case, 1000, True)
+    _, mem, err, zs, _ = _run_kernel_once(ft, case, 1000, True, clean=False)
+    for f in glob.glob(os.path.join(scratch(), "t-*.csv")):
+        os.remove(f)
     outs.append(zs)
     impl["mem"] = mem
     if err and not impl["err"]:
@@ -678,7 +809,7 @@ def _run_kernel(ft, case):
     # the result of the nest does not depend on the threshold / trace storage either
     case["side"] = {"output_same_for_all_thresholds": all(o == outs[0] for o in outs),
                     "dest_rows_address_element" + (": " + str(dest_bad[0]) if dest_bad else ""): not dest_bad,
-                    "lazy_fiber_iterated_after_endCollect_is_silent": late_ok}
+                    "lazy_fiber_after_endCollect_silent_and_no_undeclared_files": late_ok}
     impl["dest_rows_checked"] = dest_checked
     return case
 
@@ -742,6 +873,7 @@ def _run_api(ft, case):
 def run(case):
     ft = H.ft()
     if case["op"] == "kernel":
+        fill_extents(case)
         return _run_kernel(ft, case)
     return _run_api(ft, case)
 
@@ -794,7 +926,10 @@ def signature(case, verdict, failed):
                 lv["src"].get("own") and any(k[0] == lv["src"]["srcRank"] for k in case["traced"]) for lv in projs):
             return "project:under-populate-without-prior-matchRanks:AssertionError"
         return "kernel:crash:" + err + ("/" + "/".join(other) if other else "")
-    spec = sorted(set(c for c in clauses if not c.startswith(("file@", "mem:", "sim"))))
+    spec = sorted(set(c for c in clauses if not c.startswith(("file@", "mem:", "sim", "wn"))))
+    if spec and not other and all(c.startswith("addr-ustale:") for c in spec) and any(
+            (not lv["pop"]) and lv["src"]["kind"] == "fiber" and lv.get("uOps") for lv in case["levels"][:-1]):
+        return "coord:stale-under-plain-loop-over-uncompressed-rank"
     rest = [c for c in spec if not c.startswith("addr-storage:")]
     if rest or other:
         return "kernel:" + "/".join(rest + other)
@@ -853,7 +988,8 @@ def extra_evidence(results):
             dest += c.get("impl", {}).get("dest_rows_checked", 0)
             depth[len(c["levels"])] = depth.get(len(c["levels"]), 0) + 1
             for lv in c["levels"]:
-                k = (("popU+" if lv.get("zU") else "pop+") if lv["pop"] else "") + lv["src"]["kind"]
+                k = (("popU+" if lv.get("zU") else "pop+") if lv["pop"] else "") + lv["src"]["kind"] + \
+                    ("/U" if lv.get("uOps") else "") + ("/tuple" if lv.get("tuple") else "")
                 forms[k] = forms.get(k, 0) + 1
     return {"case_families": fam, "nest_depths": depth, "level_forms": forms,
             "destination_rows_checked_against_live_fiber": dest}
